@@ -78,25 +78,39 @@ contract StatisticSeries
 
 // ---------- the scraper as the proxy uses it (C12 wiring, C13) ----------
 contract NewScraper
-  ensures result != nil && fresh(result) && result.job == job && len(result.writer) == 0 && result.HTTPResponse == nil
+  ensures result != nil && fresh(result) && result.job == job && len(result.writer) == 0 && result.HTTPResponse == nil && result.gZipReader == nil
   modifies Scraper.* at {}
 
 // bytes reach a writer only through the tee reader, i.e. only writers attached to this scraper can receive any
 pred onlyAttachedWritten(s) = forall q : int :: (forall j in 0..len(s.writer) :: payload(s.writer[j]) != q) ==> (gOutLen[q] == old(gOutLen[q]) && gOutData[q] == old(gOutData[q]))
 
+// the reader the parser will consume is the tee over the (decompressed) body with exactly the scraper's writers attached
+pred teeInstalled(s) = isptr(s.reader, wrappedReader) && asptr(s.reader, wrappedReader) != nil
+    && asptr(s.reader, wrappedReader).writer == s.writer && asptr(s.reader, wrappedReader).reader != nil
+
 // RequestTo performs the HTTP request; nothing is read from the body yet, so no writer receives anything
 contract Scraper.RequestTo
-  requires s != nil && s.job != nil
+  requires s != nil && s.job != nil && s.job.Config != nil && s.job.Cli != nil && s.gZipReader == nil
   ensures[C12] @nothing_written_yet forall q : int :: gOutLen[q] == old(gOutLen[q]) && gOutData[q] == old(gOutData[q])
-  ensures result == nil ==> s.HTTPResponse != nil && s.reader != nil && s.ctxCancel != nil
+  ensures[C13] @only_status_200_is_success result == nil ==> s.HTTPResponse != nil && s.HTTPResponse.StatusCode == 200
+  ensures[C12] @tee_installed_with_the_attached_writers result == nil ==> teeInstalled(s) && s.ctxCancel != nil
+  ensures result == nil ==> (s.gZipReader != nil ==> !s.gZipReader.gInPool)
   ensures s.writer == old(s.writer) && s.job == old(s.job)
-  modifies Scraper.* at {s}
+  modifies Scraper.* at {s}, wrappedReader.* at {}, net/http.Response.* at {}, net/http.Request.* at {}, github.com/klauspost/compress/gzip.Reader.gInPool
 
-// ParseResponse drives the statistics parser over s.reader (the tee reader built by RequestTo)
+// ParseResponse drives the statistics parser over s.reader (the tee reader built by RequestTo) and then releases the
+// request context and the pooled decompressor
 contract Scraper.ParseResponse
-  requires s != nil
+  requires s != nil && s.ctxCancel != nil && teeInstalled(s) && (s.gZipReader != nil ==> !s.gZipReader.gInPool)
   ensures[C12] @only_attached_writers_receive_bytes onlyAttachedWritten(s)
   ensures forall q : int :: gOutLen[q] >= old(gOutLen[q])
   ensures forall x : *StatisticsSeriesResult :: old(allocated(x)) ==> (x.Total >= old(x.Total) && x.ScrapedTotal >= old(x.ScrapedTotal))
-  modifies gOutLen, gOutData, StatisticsSeriesResult.*, MetricSamplesInfo.*, mapof(StatisticsSeriesResult.MetricsTotal), gKept, gMetricTotal, gMetricScraped
+  ensures s.gZipReader == old(s.gZipReader) && (s.gZipReader != nil ==> s.gZipReader.gInPool)
+  modifies gOutLen, gOutData, StatisticsSeriesResult.*, MetricSamplesInfo.*, mapof(StatisticsSeriesResult.MetricsTotal), gKept, gMetricTotal, gMetricScraped, github.com/klauspost/compress/gzip.Reader.gInPool, gClock
+
+contract Scraper.WithRawWriter
+  requires s != nil
+  ensures[C12] len(s.writer) == old(len(s.writer)) + len(w)
+  ensures[C12] forall i in 0..len(s.writer) :: (i < old(len(s.writer)) ==> s.writer[i] == old(s.writer[i])) && (i >= old(len(s.writer)) ==> s.writer[i] == w[i - old(len(s.writer))])
+  modifies Scraper.writer at {s}, elems(Scraper.writer) at {}
 @*/
